@@ -1,4 +1,5 @@
 import Emboss.Properties.C05
+import Emboss.Properties.C04Arith
 open Emboss.Bounds
 #print axioms C05_sound
 #print axioms C05_constant_exact
@@ -11,8 +12,12 @@ open Emboss.Bounds
 #print axioms C05_inv_leaves
 #print axioms C05_inv_preserved
 #print axioms C05_no_crash_arith
+#print axioms C05_no_crash
 #print axioms C05_inv_needs_canonical_counterexample
-#print axioms C05_inv_preserved_counterexample
-#print axioms C05_crash_counterexample
 #print axioms C05_tight_linear
+#print axioms C05_tight_choice_independent
 #print axioms C05_tight_choice_counterexample
+-- arithmetic half of C04 (Properties/C04Arith.lean), delivered and tied by this property's check
+#print axioms C04_no_overflow
+#print axioms C04_choice_static_assert_counterexample
+#print axioms C04_header_types
